@@ -69,6 +69,9 @@ def run(prog: Program, rep: Report):
     r3_operators(prog, rep, ss)
     r4_comparisons(prog, rep, ss)
     r5_arrays(prog, rep, ss)
+    r8_input_order(prog, rep, ss)
+    from .memo import public_entry_points, rule_derived_state
+    rule_derived_state(prog, rep, "C10.R7", ss, {"starts", "ends", "eq_relation"}, public_entry_points(prog, ss))
     oneshot_rule(prog, rep, "C10.R6", [prog.method(ss, "__init__"), prog.method(ss, "isdisjoint")])
 
 
@@ -636,3 +639,71 @@ def r5_arrays(prog, rep: Report, ss: Cls):
     rep.check("C10.R5", it, "iter", ok, "yields (start, end) from zip(starts, ends)",
               "__iter__ does not yield (start, end) pairs index-aligned from starts/ends",
               scenario="iteration swaps start and end or misaligns them: every operator result is built from wrong spans")
+
+
+# ---------------------------------------------------------------------------------------------- R8
+def r8_input_order(prog, rep: Report, ss):
+    """which spans survive the constructor's filter depends on the order in which they are offered (for every relation but Exact):
+    the scans must see the caller's order"""
+    from ..flow import Flow
+    rep.rule("C10.R8", "the constructor offers the spans to its de-duplicating scan in the caller's order: what the scan loops iterate "
+             "(and subscript in parallel) are the parameters themselves or order-preserving views of them (list/tuple/zip/"
+             "enumerate/slices/comprehensions); a set(), sorted() or reversed() on the way changes which of two related spans is "
+             "kept", floor=2)
+    f = prog.method(ss, "__init__")
+    rep.fn(f)
+    flow = Flow(f.node)
+    params = set(f.params[1:])
+
+    def order_loss(e, depth=0) -> Optional[str]:
+        if depth > 6:
+            return None
+        if isinstance(e, ast.Call):
+            name = src(e.func)
+            if name in ("set", "frozenset", "sorted", "reversed"):
+                for a_ in e.args:
+                    for x in ast.walk(a_):
+                        if isinstance(x, ast.Name) and derives_from_param(x, depth + 1):
+                            return src(e)[:60]
+        for ch in ast.iter_child_nodes(e):
+            if isinstance(ch, ast.expr) or isinstance(ch, ast.comprehension):
+                r = order_loss(ch, depth) if isinstance(ch, ast.expr) else (order_loss(ch.iter, depth) or next((order_loss(i, depth) for i in ch.ifs if order_loss(i, depth)), None))
+                if r:
+                    return r
+        if isinstance(e, ast.Name) and e.id not in ("self",):
+            for d in flow.defs_of(e):
+                if isinstance(d.value, ast.expr) and d.kind in ("assign", "for", "comp") and d.value is not e:
+                    r = order_loss(d.value, depth + 1)
+                    if r:
+                        return r
+        return None
+
+    def derives_from_param(x, depth=0) -> bool:
+        if x.id in params:
+            return True
+        if depth > 6:
+            return False
+        for d in flow.defs_of(x):
+            if isinstance(d.value, ast.expr) and any(isinstance(y, ast.Name) and y is not x and derives_from_param(y, depth + 1)
+                                                   for y in ast.walk(d.value)):
+                return True
+        return False
+    scans = []
+    for n in ast.walk(f.node):
+        if isinstance(n, ast.For) and any(isinstance(c, ast.Call) and isinstance(c.func, ast.Attribute) and c.func.attr == "append"
+                                          and dotted(c.func.value) and dotted(c.func.value)[0] == f.self_name for c in ast.walk(n)):
+            scans.append(n)
+    if not scans:
+        rep.unrec("C10.R8", f, "input-order", "no scan loop appending to the span arrays found")
+        return
+    for k, lp in enumerate(scans, 1):
+        lost = order_loss(lp.iter)
+        if not lost:
+            # parallel subscripts inside the loop (ends[i]) must read an order-preserving view, too
+            for x in ast.walk(lp):
+                if isinstance(x, ast.Subscript) and isinstance(x.value, ast.Name) and x.value.id not in (f.self_name,):
+                    lost = lost or order_loss(x.value)
+        rep.check("C10.R8", f, f"input-order:{k}", not lost, f"`{src(lp.iter)}` iterates the input in the caller's order",
+                  f"the scan at line {lp.lineno} sees the input through `{lost}`, which does not keep the caller's order",
+                  scenario="SpanSet([1, 2], [5, 3], eq_relation=PartOf) must keep only (1, 5): offered in hash order the nested span may "
+                           "come first and both are kept", line=lp.lineno)
